@@ -9,6 +9,8 @@ Sections
   hierarchical  hierarchical_clustering.py: ward, ward_quick, average_link_graph, WeightedForest
                 partition/split/check_compatible_height/list_of_subtrees, *_segment wrappers;
                 exact correspondence with coq/C14/ModelH.v and dendrogram oracles.
+  fusion        hierarchical_clustering.fusion (graph update of average_link_graph) called directly; exact
+                correspondence with coq/C14/ModelAL.v (multisets of live rows) and a Fraction oracle.
 """
 import itertools
 from fractions import Fraction as F
@@ -718,6 +720,145 @@ def segment_section(ck):
                 ck.fail("ward_segment/model-vs-impl", "Gallina model and implementation disagree (ward_segment): %s" % str(rep)[:300], rep)
     ck.section("segment", calls=ncalls, raised=nraise, model_cases=len(terms))
 
+HDR_AL = ("From Coq Require Import List ZArith QArith.\n"
+          "From NV.C14 Require Import ModelAL.\n")
+
+
+def fusion_section(ck):
+    """hierarchical_clustering.fusion (the graph update of average_link_graph) called directly: graphs with at most one row
+    per ordered pair, dyadic similarities (integers / 8, negative and zero included), optional rows i-j / j-i, optional
+    tombstoned rows ([-1,-1], -inf), k fresh; populations with pop[k] a power of two (every float operation exact: compared
+    with the Gallina model ModelAL.fusion as multisets of live rows) or arbitrary (oracle with a relative tolerance 1e-12).
+    Independent oracle: exact recomputation with Fractions of the population-weighted average and of the summed double edges."""
+    from nipy.algorithms.clustering import hierarchical_clustering as hc
+    from nipy.algorithms.graph.graph import WeightedGraph
+    rng = ck.rng("fusion")
+    terms, meta = [], []
+    ncase = nexact = ndouble = 0
+    N = ck.n(260, 3000)
+    for t in range(N):
+        n = 3 + t % 5 if t < 40 else int(rng.integers(3, 9))
+        k = n + int(rng.integers(0, 3))
+        V = k + 2
+        i, j = (int(v) for v in rng.choice(n, size=2, replace=False))
+        mode = t % 4                       # 0 symmetric, 1 directed, 2 symmetric dense, 3 directed + i-j rows
+        dens = (0.5, 0.5, 0.9, 0.6)[mode]
+        rows = []
+        for a in range(n):
+            for b in range(a + 1, n):
+                if {a, b} == {i, j} and mode in (0, 1) and t % 8 < 4:
+                    continue
+                if mode in (0, 2):
+                    if rng.random() < dens:
+                        w = F(int(rng.integers(-16, 41)), 8)
+                        rows += [(a, b, w), (b, a, w)]
+                else:
+                    for (x, y) in ((a, b), (b, a)):
+                        if rng.random() < dens:
+                            rows.append((x, y, F(int(rng.integers(-16, 41)), 8)))
+        if not rows:
+            rows = [(i, (i + 1) % n if (i + 1) % n != j else (i + 2) % n, F(1))]
+        perm = rng.permutation(len(rows))
+        rows = [rows[int(q)] for q in perm]
+        dead = set()
+        if t % 3 == 0:                     # rows that earlier merges have tombstoned
+            for _ in range(int(rng.integers(1, 4))):
+                pos = int(rng.integers(0, len(rows) + 1))
+                rows.insert(pos, None)
+        exact_pop = t % 5 != 4
+        pk = int(rng.choice([2, 4, 8, 16])) if exact_pop else int(rng.integers(2, 40))
+        pi_ = int(rng.integers(1, pk))
+        pop = np.ones(V, np.int_)
+        pop[i], pop[j], pop[k] = pi_, pk - pi_, pk
+        edges = np.array([(-1, -1) if r is None else r[:2] for r in rows], dtype=np.int_)
+        weights = np.array([-np.inf if r is None else float(r[2]) for r in rows])
+        live_in = [r for r in rows if r is not None]
+        K = WeightedGraph(V, edges.copy(), weights.copy())
+        pop_in = pop.copy()
+        third = [c for c in range(n) if c not in (i, j)]
+        double = any(((i, c) in {r[:2] for r in live_in} and (j, c) in {r[:2] for r in live_in}) or
+                     ((c, i) in {r[:2] for r in live_in} and (c, j) in {r[:2] for r in live_in}) for c in third)
+        ij_rows = any(r[:2] in ((i, j), (j, i)) for r in live_in)
+        feat = ("double-edge" if double else "no-double-edge") + ("+i-j-rows" if ij_rows else "") + \
+               ("+tombstones" if any(r is None for r in rows) else "")
+        rep = {"n": n, "i": i, "j": j, "k": k, "pop_i": pi_, "pop_j": pk - pi_, "pop_k": pk,
+               "rows": [None if r is None else [r[0], r[1], float(r[2])] for r in rows]}
+        ncase += 1
+        ndouble += bool(double)
+        ck.count(("fusion", n, i, j, k, pi_, pk, tuple(rows)), nontrivial=bool(double or ij_rows),
+                 bucket="fusion:%s%s" % ("exact-pop" if exact_pop else "float-pop", "+double-edge" if double else ""))
+        try:
+            hc.fusion(K, pop, i, j, k)
+        except Exception as e:  # noqa
+            ck.fail("fusion/raises/%s/%s" % (type(e).__name__, feat), "fusion raised %s: %s" % (type(e).__name__, e), rep)
+            continue
+        # ---- exact expectation (independent of Coq)
+        fi = F(pi_, pk)
+        fj = 1 - fi
+        exp_k, exp_other = {}, []
+        for (a, b, w) in live_in:
+            if a == i:
+                a, w = k, w * fi
+            if b == i:
+                b, w = k, w * fi
+            if a == j:
+                a, w = k, w * fj
+            if b == j:
+                b, w = k, w * fj
+            if k in (a, b):
+                exp_k[(a, b)] = exp_k.get((a, b), 0) + w
+            else:
+                exp_other.append((a, b, w))
+        expected = sorted(exp_other + [(a, b, w) for (a, b), w in exp_k.items()])
+        out_e = np.asarray(K.edges)
+        out_w = np.asarray(K.weights)
+        rep["edges_after"] = out_e.tolist()
+        rep["weights_after"] = [float(v) for v in out_w]
+        if len(out_e) != len(rows) or not np.array_equal(pop, pop_in):
+            ck.fail("fusion/array-sizes-or-pop-changed/%s" % feat, "number of rows or pop modified", rep)
+            continue
+        bad_dead = [q for q in range(len(rows)) if (out_e[q, 0] == -1 or out_e[q, 1] == -1 or np.isinf(out_w[q]))
+                    and not (out_e[q, 0] == -1 and out_e[q, 1] == -1 and out_w[q] == -np.inf)]
+        if bad_dead:
+            ck.fail("fusion/half-dead-row/%s" % feat, "rows %s are neither live nor ([-1,-1], -inf)" % bad_dead, rep)
+        if any(not (out_e[q, 0] == -1 and out_w[q] == -np.inf) for q in range(len(rows)) if rows[q] is None):
+            ck.fail("fusion/tombstone-revived/%s" % feat, "a row that was ([-1,-1], -inf) before is not any more", rep)
+        live_out = [(int(out_e[q, 0]), int(out_e[q, 1]), out_w[q]) for q in range(len(rows)) if out_e[q, 0] != -1]
+        if exact_pop:
+            got = sorted((a, b, F(float(w))) for a, b, w in live_out)
+            same = got == expected
+        else:
+            got = sorted((a, b, float(w)) for a, b, w in live_out)
+            same = len(got) == len(expected) and all(
+                g[:2] == e[:2] and abs(g[2] - float(e[2])) <= 1e-12 * max(1.0, abs(float(e[2]))) for g, e in zip(got, sorted(
+                    (a, b, float(w)) for a, b, w in expected)))
+        if not same:
+            pairs_got = sorted(g[:2] for g in got)
+            if pairs_got != sorted(e[:2] for e in expected):
+                sig = "fusion/double-edge-not-merged-or-row-lost/%s" % feat
+            elif [g for g in got if k not in g[:2]] != [e for e in expected if k not in e[:2]] and exact_pop:
+                sig = "fusion/row-not-touching-i-j-changed/%s" % feat
+            else:
+                sig = "fusion/weight-not-population-weighted-average/%s" % feat
+            ck.fail(sig, "fusion(i=%d, j=%d, k=%d, pop %d+%d): live rows %s, expected (fi*w(i,c) + fj*w(j,c), double rows summed) %s"
+                    % (i, j, k, pi_, pk - pi_, [(a, b, float(w)) for a, b, w in got], [(a, b, float(w)) for a, b, w in expected]), rep)
+        if exact_pop:
+            nexact += 1
+            ce = lambda L: "[%s]" % "; ".join("mke %s %s %s" % (cz(a), cz(b), cq(F(w))) for a, b, w in L)  # noqa
+            terms.append("fusion_agrees %s %s %s %s %s %s %s" % (cz(pi_), cz(pk), cz(i), cz(j), cz(k), ce(live_in),
+                                                                 ce([(a, b, F(float(w))) for a, b, w in live_out])))
+            meta.append(rep)
+        if ncase <= 2:
+            ck.sample({"section": "fusion", **{q: rep[q] for q in ("i", "j", "k", "pop_i", "pop_k", "rows", "edges_after", "weights_after")}})
+    if ck.build is not None and ck.build.ok and terms:
+        res = ck.coq_bools(HDR_AL, terms, shard=150, name="fus")
+        ck.cov["traces_validated_against_impl"] += len(res)
+        for ok, rep in zip(res, meta):
+            if not ok:
+                ck.fail("fusion/model-vs-impl", "Gallina model ModelAL.fusion and hierarchical_clustering.fusion disagree "
+                        "(multiset of live rows): %s" % str(rep)[:300], rep)
+    ck.section("fusion", cases=ncase, model_cases=nexact, with_double_edges=ndouble)
+
 
 def run(ck):
     ck.cov["rule"] = ("kmeans: integer data matrices (1..5 features, duplicates/ties), all k 1..n, initial labellings incl. empty "
@@ -735,6 +876,7 @@ def run(ck):
     t2 = time.time()
     hierarchical_section(ck)
     segment_section(ck)
+    fusion_section(ck)
     t3 = time.time()
     ck.section("timing", build_s=round(t1 - t0, 1), kmeans_s=round(t2 - t1, 1), hierarchical_s=round(t3 - t2, 1))
 
